@@ -1842,3 +1842,147 @@ def r_parallel_families(ctx, f: FunctionInfo, names, rule="R-ENUM", chain=None):
                f"`{nm}[k]` and `{other}[k]` no longer belong to the same member (every entry after the first dropped one is paired with the wrong weight)", d, chain=chain)
     else:
         ctx.ob(rule, f, key, True, f"{sum(len(v) for v in sel.values())} selecting re-binding(s), consistent", chain=chain)
+
+
+# ---------------------------------------------------------------------------------------------
+def r_chunk_tail(ctx, f: FunctionInfo, rule="R-ENUM", chain=None):
+    """An index range [0, N) handed out in blocks [k*B, (k+1)*B) for k in range(N // B) loses the last N % B indices: the block count
+    has to be the ceiling ((N + B - 1) // B, -(-N // B), ceil(N / B)) and the last block clipped, or the tail handled separately."""
+    sites, bad = 0, None
+    for n in walk_no_nested(f.node):
+        gens = []
+        if isinstance(n, (ast.ListComp, ast.GeneratorExp, ast.SetComp)):
+            gens = [(g.target, g.iter, n) for g in n.generators]
+        elif isinstance(n, ast.For):
+            gens = [(n.target, n.iter, n)]
+        for tgt, it, body in gens:
+            if not (isinstance(tgt, ast.Name) and isinstance(it, ast.Call) and isinstance(it.func, ast.Name) and it.func.id == "range" and len(it.args) == 1):
+                continue
+            cnt = it.args[0]
+            if not (isinstance(cnt, ast.BinOp) and isinstance(cnt.op, ast.FloorDiv)):
+                continue
+            total, blk = cnt.left, cnt.right
+            # ceiling idioms: (N + B - 1) // B ; handled by the shape of `total`
+            if isinstance(total, ast.BinOp) and isinstance(total.op, (ast.Add, ast.Sub)) and unparse(blk) in unparse(total):
+                continue
+            if isinstance(total, ast.UnaryOp):
+                continue
+            bt = unparse(blk)
+            k = tgt.id
+            uses = [x for x in ast.walk(body) if isinstance(x, ast.BinOp) and isinstance(x.op, ast.Mult) and
+                    ((unparse(x.left) == k and unparse(x.right) == bt) or (unparse(x.right) == k and unparse(x.left) == bt))]
+            upper = [x for x in ast.walk(body) if isinstance(x, ast.BinOp) and isinstance(x.op, ast.Mult) and
+                     (unparse(x.left).replace(" ", "") in (f"({k}+1)", f"{k}+1", f"(1+{k})") or unparse(x.right).replace(" ", "") in (f"({k}+1)", f"{k}+1", f"(1+{k})"))]
+            if not (uses and upper):
+                continue
+            sites += 1
+            # a separate treatment of the tail somewhere in the function: N % B, or range(.., N) starting at (N // B) * B
+            tail = any(isinstance(x, ast.BinOp) and isinstance(x.op, ast.Mod) and unparse(x.right) == bt for x in ast.walk(f.node))
+            if not tail:
+                bad = bad or (n, unparse(total), bt)
+    key = "block-wise enumeration covers the last partial block"
+    if bad:
+        ctx.ob(rule, f, key, False, f"blocks [k*{bad[2]}, (k+1)*{bad[2]}) for k in range({bad[1]} // {bad[2]}) stop at {bad[2]}*({bad[1]} // {bad[2]}): the last {bad[1]} % {bad[2]} "
+               "indices are never visited (a maximum over the enumeration can only come out too small)", bad[0], chain=chain)
+    elif sites:
+        ctx.ob(rule, f, key, True, f"{sites} block-wise enumeration(s), tail handled", chain=chain)
+    return sites
+
+
+# ---------------------------------------------------------------------------------------------
+_ONESHOT = {"combinations", "combinations_with_replacement", "permutations", "product", "map", "filter", "zip", "iter", "enumerate", "reversed", "chain",
+            "islice", "starmap", "accumulate", "groupby", "zip_longest", "pairwise"}
+
+
+def r_oneshot_iterator(ctx, f: FunctionInfo, rule="R-ENUM", chain=None):
+    """A one-shot iterator (itertools.combinations(..), map(..), zip(..), a generator expression) bound to a name is empty after its first
+    traversal.  Bound outside a loop and traversed inside it (or traversed twice), it yields its items for the first outer iteration
+    only: every later iteration of the enclosing loop silently skips the inner traversal."""
+    par = _parents(f.node)
+
+    def oneshot(e):
+        if isinstance(e, ast.GeneratorExp):
+            return True
+        if isinstance(e, ast.IfExp):
+            return oneshot(e.body) or oneshot(e.orelse)
+        if isinstance(e, ast.Call):
+            nm = e.func.attr if isinstance(e.func, ast.Attribute) else e.func.id if isinstance(e.func, ast.Name) else ""
+            return nm in _ONESHOT
+        return False
+
+    def loops_of(n):
+        out = []
+        p = par.get(id(n))
+        while p is not None and p is not f.node:
+            if isinstance(p, (ast.For, ast.While, ast.ListComp, ast.GeneratorExp, ast.SetComp, ast.DictComp)):
+                out.append(p)
+            p = par.get(id(p))
+        return out
+
+    sites, bad = 0, None
+    for a in walk_no_nested(f.node):
+        if not (isinstance(a, ast.Assign) and len(a.targets) == 1 and isinstance(a.targets[0], ast.Name) and oneshot(a.value)):
+            continue
+        nm = a.targets[0].id
+        sites += 1
+        a_loops = {id(x) for x in loops_of(a)}
+        trav = []
+        for n in walk_no_nested(f.node):
+            it = None
+            if isinstance(n, ast.For):
+                it = n.iter
+            elif isinstance(n, ast.comprehension):
+                it = n.iter
+            if isinstance(it, ast.Name) and it.id == nm and getattr(n, "lineno", getattr(it, "lineno", 0)) >= a.lineno:
+                trav.append((n, it))
+        for n, it in trav:
+            # loops that enclose the traversal but not the binding: the traversal is repeated, the binding is not
+            outer = [lp for lp in loops_of(it) if id(lp) not in a_loops and lp is not n]
+            # (a `for` statement is its own loop: exclude it; for a comprehension generator the comprehension node encloses `it`)
+            if isinstance(n, ast.comprehension):
+                comp = par.get(id(n))
+                # the first generator's iterable is evaluated once per evaluation of the comprehension
+                outer = [lp for lp in outer if lp is not comp or (comp.generators and comp.generators[0] is not n)]
+            if outer:
+                bad = bad or (a, it, outer[0])
+        if len(trav) >= 2 and bad is None:
+            # two traversals of the same one-shot iterator on one path (not in exclusive branches): the second is empty
+            t1, t2 = trav[0][0], trav[1][0]
+            # only when both are statements of one block (exclusive if-arms each traverse it once)
+            if isinstance(t1, ast.For) and isinstance(t2, ast.For) and par.get(id(t1)) is par.get(id(t2)) and not isinstance(par.get(id(t1)), ast.If):
+                bad = bad or (a, trav[1][1], None)
+    key = "no one-shot iterator is traversed more than once"
+    if bad:
+        a, it, lp = bad
+        ctx.ob(rule, f, key, False, f"`{unparse(a)[:70]}` binds a one-shot iterator; `for .. in {it.id}` (line {it.lineno}) "
+               + (f"runs inside the loop at line {getattr(lp, 'lineno', '?')} that does not re-create it: after the first outer iteration it is exhausted and the inner loop body is skipped"
+                  if lp is not None else "is its second traversal: it is already exhausted there"), it, chain=chain)
+    elif sites:
+        ctx.ob(rule, f, key, True, f"{sites} one-shot iterator binding(s), each traversed once", chain=chain)
+    return sites
+
+
+# ---------------------------------------------------------------------------------------------
+def r_family_preserved(ctx, f: FunctionInfo, name: str, what="member", rule="R-ENUM", chain=None):
+    """The list parameter `name` is a family whose members are addressed by position afterwards (Kraus operator i, block (i, j) of the
+    complement, state k with prior k).  Re-binding it to a filtered comprehension / a slice drops members and renumbers the rest."""
+    if f.param(name) is None:
+        return
+    bad, sites = None, 0
+    for n in walk_no_nested(f.node):
+        if isinstance(n, ast.Assign) and len(n.targets) == 1 and isinstance(n.targets[0], ast.Name) and n.targets[0].id == name:
+            sites += 1
+            v = n.value
+            if isinstance(v, ast.ListComp) and any(g.ifs for g in v.generators) and name in {x.id for x in ast.walk(v) if isinstance(x, ast.Name)}:
+                bad = bad or (n, "if " + " and ".join(unparse(c) for g in v.generators for c in g.ifs))
+            elif isinstance(v, ast.Subscript) and isinstance(v.value, ast.Name) and v.value.id == name and isinstance(v.slice, ast.Slice) and \
+                    not (v.slice.lower is None and v.slice.upper is None and v.slice.step is None):
+                bad = bad or (n, f"[{unparse(v.slice)}]")
+            elif isinstance(v, ast.Call) and getattr(v.func, "id", "") == "filter":
+                bad = bad or (n, "filter(..)")
+    key = f"every {what} of `{name}` is kept (no filtering re-binding)"
+    if bad:
+        ctx.ob(rule, f, key, False, f"`{unparse(bad[0])[:70]}` keeps only the {what}s selected by `{bad[1][:40]}`: the remaining ones are renumbered, so anything indexed by the "
+               f"{what}'s position (output blocks (i, j), paired weights) no longer refers to the caller's {what} i", bad[0], chain=chain)
+    else:
+        ctx.ob(rule, f, key, True, f"{sites} re-binding(s), none selective", chain=chain)
